@@ -703,6 +703,142 @@ def run_deprecate_streams(ctx: Ctx) -> None:
     ctx.traces_validated += 1
 
 
+# ------------------------------------------------------------------------------------------------ pydoctor's own markup builders
+
+def build_system(src: str, modname: str = "m", parent: Optional[str] = None):
+    from pydoctor import model
+    system = model.System()
+    system.options.verbosity = -1
+    b = system.systemBuilder(system)
+    if parent:
+        b.addModuleString("", modname=parent, is_package=True)
+        b.addModuleString(src, modname=modname, parent_name=parent)
+    else:
+        b.addModuleString(src, modname=modname)
+    b.buildModules()
+    return system
+
+
+def run_builder_streams(ctx: Ctx) -> None:
+    from urllib.parse import quote
+    from pydoctor.stanutils import flatten
+    from pydoctor.templatewriter.pages import format_signature
+    from pydoctor.linker import taglink
+    from pydoctor import node2stan
+    rng = ctx.rng
+    n = 500 if ctx.quick else 4000
+    # (1) a string default through _ValueFormatter / format_signature / html2stan / flatten
+    reqs, impls, pay = [], [], []
+    fixed = ["", "a", "<img src=\"x\" onerror=\"z()\"/>", "nb\xa0sp", "\x0c", "\ufffe", "it's", "\\", "\x00", "\x01", "&nbsp;", "&LT;b&GT;",
+             "\r", "\t\x0b", "]]>", "\x7f\x85\u2028", "\U0001F600"]
+    for v in fixed + [rand_string(rng, 8).replace("\n", "n") for _ in range(n)]:
+        system = build_system(f"def f(a={v!r}): pass\n")
+        try:
+            out = "ok " + enc(flatten(format_signature(system.allobjects["m.f"])))
+        except Exception as e:
+            out = exc_name(e)
+        reqs.append("escape sigdefault " + enc(v))
+        impls.append(out)
+        pay.append({"op": "sigdefault", "s": v})
+        ctx.case(reqs[-1], nontrivial_string(v))
+        ctx.count("builder:sigdefault:" + ("broken" if out == "ok " + enc("(...)") else "shown" if out.startswith("ok ") else out))
+        if out.startswith("ok "):
+            o = dec(out[3:])
+            # direct oracle: the signature is well-formed XML whose only elements are the two constant spans, and its
+            # text is the escaped value (or the broken sign)
+            try:
+                el = ET.fromstring("<r>" + drop_illegal(o) + "</r>")
+                ok = o == "(...)" or ([c.tag for c in el] == ["span"] * 3 and all(len(c) == 0 for c in el))
+            except ET.ParseError:
+                ok = False
+            if not ok:
+                ctx.fail("signature-default-became-markup", pay[-1], f"format_signature of a={v!r}: {o!r}")
+    ctx.compare("builder:format_signature(str default)", reqs, impls, pay)
+    # (2) urllib.parse.quote and Documentable.url / taglink
+    reqs, impls, pay = [], [], []
+    for _ in range(5 * n):
+        v = rand_string(rng, 8)
+        reqs.append("escape quote " + enc(v))
+        impls.append("ok " + enc(quote(v)))
+        pay.append({"op": "quote", "s": v})
+        ctx.case(reqs[-1], nontrivial_string(v))
+        ctx.count("builder:quote")
+    ctx.compare("builder:urllib.quote", reqs, impls, pay)
+    reqs, impls, pay = [], [], []
+    for i in range(n // 4):
+        name = rand_string(rng, 6).replace(".", "d") or "m"
+        single_root = i % 3 == 0
+        system = build_system("class C:\n    def meth(self): pass\n    class In:\n        attr = 1\nV = 1\n", modname=name,
+                              parent=None if single_root else "pk")
+        prefix = "" if single_root else "pk."
+        for full in (prefix + name, prefix + name + ".C", prefix + name + ".C.meth", prefix + name + ".V", prefix + name + ".C.In.attr"):
+            o = system.allobjects.get(full)
+            if o is None:
+                continue
+            page = o.page_object
+            root = "1" if list(system.root_names) == [page.fullName()] else "0"
+            anchor = "-" if page is o else enc(o.name)
+            reqs.append(f"escape url {root} {enc(page.fullName())} {anchor}")
+            impls.append("ok " + enc(o.url))
+            pay.append({"op": "url", "fullName": full})
+            ctx.case(reqs[-1], nontrivial_string(full))
+            ctx.count("builder:url:" + ("page" if page is o else "anchor") + (":root" if root == "1" else ""))
+            # direct oracle: nothing in a URL needs escaping in an attribute, and taglink puts it in href as it is
+            if re.search("[<>&\"' \x00-\x1f]", o.url):
+                ctx.fail("url-has-metachar", pay[-1], f"url {o.url!r}")
+            for cur in (page.url, "other.html", ""):
+                tag = taglink(o, cur)
+                href = tag.attributes.get("href")
+                reqs.append(f"escape taglinkhref {enc(cur)} {enc(o.url)}")
+                impls.append("ok " + enc(href))
+                pay.append({"op": "taglinkhref", "fullName": full, "page": cur})
+                ctx.case(reqs[-1], nontrivial_string(full))
+                ctx.count("builder:taglink")
+    ctx.compare("builder:Documentable.url+taglink", reqs, impls, pay)
+    # (3) node2stan.HTMLTranslator.starttag (the rst- munging on top of docutils) and _valid_identifier
+    reqs, impls, pay = [], [], []
+    CW = ["a", "b", "rst-x", "rst-", "language-py", "language-", "literal", "a", " ", "  ", "\t", "\u3000", "<", "\"", "&", "x\">", "heading", "é"]
+    for _ in range(2 * n):
+        tag = rng.choice(["div", "p", "h2", "h10", "h", "hx", "span", "h2a"])
+        v = "".join(rng.choice(CW) + rng.choice(["", " ", " "]) for _ in range(rng.choice([0, 1, 2, 3, 4])))
+        try:
+            out = "ok " + enc(translator().starttag({}, tag, "", CLASS=v))
+        except Exception as e:
+            out = exc_name(e)
+        reqs.append(f"escape starttagclass {enc(tag)} {enc(v)}")
+        impls.append(out)
+        pay.append({"op": "starttagclass", "tag": tag, "s": v})
+        ctx.case(reqs[-1], nontrivial_string(v))
+        ctx.count("builder:starttag-class")
+        h = rng.choice(["#", "#rst-", "", "#", "http://x/", "javascript:", "##"]) + rand_string(rng, 5)
+        try:
+            out = "ok " + enc(translator().starttag({}, "a", "", href=h))
+        except Exception as e:
+            out = exc_name(e)
+        reqs.append(f"escape starttaghref {enc(h)}")
+        impls.append(out)
+        pay.append({"op": "starttaghref", "s": h})
+        ctx.case(reqs[-1], nontrivial_string(h))
+        ctx.count("builder:starttag-href")
+        w = rand_string(rng, 8)
+        reqs.append("escape valididcss " + enc(w))
+        impls.append("ok " + enc(node2stan._valid_identifier(w)))
+        pay.append({"op": "valididcss", "s": w})
+        ctx.case(reqs[-1], nontrivial_string(w))
+        ctx.count("builder:_valid_identifier")
+        for o in impls[-3:-1]:
+            if o.startswith("ok "):
+                t = dec(o[3:])
+                try:
+                    el = ET.fromstring(DOCTYPE + drop_illegal(t) + "</" + t[1:].split(" ")[0].rstrip(">") + ">")
+                    ok = len(el) == 0 and set(el.attrib) <= {"class", "lang", "href", "target"}
+                except ET.ParseError:
+                    ok = False
+                if not ok:
+                    ctx.fail("attr-not-preserved:node2stan.starttag", pay[-2], f"start tag {t!r}")
+    ctx.compare("builder:node2stan.starttag+_valid_identifier", reqs, impls, pay)
+
+
 # ------------------------------------------------------------------------------------------------ run / replay
 
 def probe_uri_autolink(ctx: Ctx) -> None:
@@ -722,6 +858,7 @@ def run(ctx: Ctx) -> None:
     run_function_streams(ctx)
     run_tree_stream(ctx)
     run_deprecate_streams(ctx)
+    run_builder_streams(ctx)
     run_taint_stream(ctx)
 
 
